@@ -1,3 +1,181 @@
 package main
 
-func cmdSweep(args []string) int { return 0 }
+import (
+	"flag"
+	"fmt"
+	"go/token"
+	"go/types"
+	"path/filepath"
+	"sort"
+	"strings"
+
+	"golang.org/x/tools/go/ssa"
+)
+
+// The sweep is the syntactic part of C06/C14: over the SSA of everything
+// reachable from the library entry points it lists every source of
+// nondeterminism or hidden state. Each map-range site must be covered by a
+// function contract that carries a "det" option naming why the result does not
+// depend on the iteration order; anything else found is reported.
+
+type sweepFinding struct {
+	Kind string
+	Func string
+	What string
+}
+
+// reachable computes the functions of the repository reachable from roots
+// through static calls, closures and method values.
+func (P *Program) reachable(roots []*ssa.Function) map[*ssa.Function]bool {
+	seen := map[*ssa.Function]bool{}
+	var visit func(f *ssa.Function)
+	visit = func(f *ssa.Function) {
+		if f == nil || seen[f] || !P.inRepo(f) {
+			return
+		}
+		seen[f] = true
+		for _, b := range f.Blocks {
+			for _, ins := range b.Instrs {
+				var ops []*ssa.Value
+				for _, op := range ins.Operands(ops) {
+					if op == nil || *op == nil {
+						continue
+					}
+					switch v := (*op).(type) {
+					case *ssa.Function:
+						visit(v)
+					case *ssa.MakeClosure:
+						visit(v.Fn.(*ssa.Function))
+					}
+				}
+				if mc, ok := ins.(*ssa.MakeClosure); ok {
+					visit(mc.Fn.(*ssa.Function))
+				}
+			}
+		}
+		for _, an := range f.AnonFuncs {
+			visit(an)
+		}
+	}
+	for _, r := range roots {
+		visit(r)
+	}
+	return seen
+}
+
+func (P *Program) sweepRoots() []*ssa.Function {
+	var roots []*ssa.Function
+	want := []string{
+		"github.com/maruel/panicparse/v2/stack.ScanSnapshot",
+		"github.com/maruel/panicparse/v2/stack.(*Snapshot).Aggregate",
+		"github.com/maruel/panicparse/v2/stack.(*Snapshot).IsRace",
+		"github.com/maruel/panicparse/v2/stack.(*Aggregated).ToHTML",
+		"github.com/maruel/panicparse/v2/stack.(*Snapshot).ToHTML",
+		"github.com/maruel/panicparse/v2/stack.funcClass",
+		"github.com/maruel/panicparse/v2/stack.pkgURL",
+		"github.com/maruel/panicparse/v2/stack.srcURL",
+		"github.com/maruel/panicparse/v2/stack.symbol",
+		"github.com/maruel/panicparse/v2/stack.(*Arg).String",
+		"github.com/maruel/panicparse/v2/stack.(*Args).String",
+		"github.com/maruel/panicparse/v2/stack.(*Signature).SleepString",
+		"github.com/maruel/panicparse/v2/internal.process",
+	}
+	for _, k := range want {
+		if f := P.funcs[k]; f != nil {
+			roots = append(roots, f)
+		}
+	}
+	return roots
+}
+
+// sweep returns the findings and the list of map-range sites.
+func (P *Program) sweep() (findings []sweepFinding, mapRanges []string, nfuncs int) {
+	reach := P.reachable(P.sweepRoots())
+	nfuncs = len(reach)
+	var fns []*ssa.Function
+	for f := range reach {
+		fns = append(fns, f)
+	}
+	sort.Slice(fns, func(i, j int) bool { return fns[i].String() < fns[j].String() })
+	for _, f := range fns {
+		name := f.RelString(f.Pkg.Pkg)
+		key := P.funcKey(f)
+		fc := P.contracts.Funcs[key]
+		nRange := 0
+		for _, b := range f.Blocks {
+			for _, ins := range b.Instrs {
+				switch x := ins.(type) {
+				case *ssa.Range:
+					if _, ok := x.X.Type().Underlying().(*types.Map); ok {
+						nRange++
+						site := fmt.Sprintf("%s#%d", name, nRange)
+						mapRanges = append(mapRanges, site)
+						if fc == nil || fc.Opts["det"] == "" {
+							findings = append(findings, sweepFinding{"map-range-without-determinacy-contract", name, site + ": range over a map, and the function's contract has no 'option det=' justification"})
+						}
+					}
+				case *ssa.Store:
+					if g, ok := x.Addr.(*ssa.Global); ok && f.Name() != "init" {
+						findings = append(findings, sweepFinding{"store-to-package-variable", name, "writes package-level variable " + g.Name()})
+					}
+				case *ssa.Select:
+					findings = append(findings, sweepFinding{"select", name, "select statement"})
+				case *ssa.Go:
+					findings = append(findings, sweepFinding{"goroutine", name, "go statement"})
+				case *ssa.Convert:
+					if b, ok := x.Type().Underlying().(*types.Basic); ok && b.Kind() == types.Uintptr {
+						findings = append(findings, sweepFinding{"pointer-to-integer", name, "conversion to uintptr"})
+					}
+				case ssa.CallInstruction:
+					if callee := x.Common().StaticCallee(); callee != nil && callee.Pkg != nil {
+						full := callee.Pkg.Pkg.Path() + "." + callee.Name()
+						switch {
+						case full == "time.Now":
+							if name != "toHTML" {
+								findings = append(findings, sweepFinding{"clock", name, "calls time.Now"})
+							}
+						case strings.HasPrefix(full, "math/rand."):
+							findings = append(findings, sweepFinding{"random", name, "calls " + full})
+						}
+					}
+				}
+			}
+		}
+		// stores through element/field addresses derived from package-level
+		// byte-slice "constants" (they are shared between calls)
+		for _, b := range f.Blocks {
+			for _, ins := range b.Instrs {
+				if st, ok := ins.(*ssa.Store); ok {
+					if ia, ok := st.Addr.(*ssa.IndexAddr); ok {
+						if ld, ok := ia.X.(*ssa.UnOp); ok && ld.Op == token.MUL {
+							if g, ok := ld.X.(*ssa.Global); ok {
+								findings = append(findings, sweepFinding{"store-into-package-slice", name, "writes an element of " + g.Name()})
+							}
+						}
+					}
+				}
+			}
+		}
+	}
+	return
+}
+
+func cmdSweep(args []string) int {
+	fs := flag.NewFlagSet("sweep", flag.ExitOnError)
+	repo := fs.String("repo", "/repo", "repository")
+	fs.Parse(args)
+	P, err := loadProgram(*repo, filepath.Join(verifDir(), "lib"))
+	if err != nil {
+		fmt.Println("ERROR:", err)
+		return 2
+	}
+	f, mr, n := P.sweep()
+	fmt.Printf("functions reachable: %d\nmap range sites: %v\n", n, mr)
+	for _, x := range f {
+		fmt.Printf("FINDING %s in %s: %s\n", x.Kind, x.Func, x.What)
+	}
+	if len(f) > 0 {
+		return 1
+	}
+	return 0
+}
